@@ -183,6 +183,21 @@ def obs_term(s, impl_windows):
 def finding_signature(s, impl_windows):
     """known-finding signature F6: a worker dies (kill / failing handler) while it is draining
     after a shrink.  Matched on the scenario + implementation trace, not on the property."""
+    target = s["cfg"]["n0"]
+    running = {}          # slot -> job id, from the implementation's EStart / EEnd / ELost events
+    ws = split_windows(s["ops"])
+    for k, ops in enumerate(ws):
+        for o in ops:
+            if o[0] == "resize" and o[1] != 0:
+                target = min(o[1], 1_000_000)
+            if o[0] in ("kill", "failw") and o[1] >= target and o[1] in running:
+                return True
+        for e in (impl_windows[k] if k < len(impl_windows) else []):
+            if isinstance(e, tuple) and e[0] == "EStart":
+                running[e[2]] = e[1]
+            if isinstance(e, tuple) and e[0] in ("EEnd", "ELost"):
+                for w in [w for w, j in running.items() if j == e[1]]:
+                    del running[w]
     return False
 
 
@@ -248,11 +263,14 @@ def factory_part(chk, build, factor):
         if bad:
             desc["failed_clauses"] = bad
             desc["impl_windows"] = [[ev_key(e) for e in w] for w in iw]
-            sig = finding_signature(s, iw)
+            f6 = next((f for f in chk.finding_entries() if f.get("id") == "F6"), None)
+            sig = f6 is not None and bad == ["resize_converges"] and finding_signature(s, iw)
             payload = ("C15 oracle check_C15_factory rejects the implementation's trace: clause(s) "
                        + ", ".join(bad) + "\n" + json.dumps(desc, indent=1))
             if sig:
-                chk.known_finding(sig, "clause " + ",".join(bad))
+                chk.count("factory.known_finding.F6")
+                chk.known_finding("F6", "a worker that dies while draining after a shrink is replaced and never "
+                                        "retired: live workers do not converge to the requested size")
             else:
                 chk.violation("factory capacity control violated: " + ", ".join(bad), payload)
         elif diff is not None:
